@@ -170,7 +170,8 @@ def run_c17(ctx):
     cov = {
         "states": r["cases"], "transitions": r["cases"], "traces_validated_against_impl": c.get("must-compute", 0) + c.get("must-fail", 0) + c.get("disabled", 0) + c.get("unexecuted-enabled", 0) + c.get("fail-or-denoted", 0),
         "samples": r["samples"] or ["(none)"], "exhaustive": True,
-        "bounds": ["15 opcodes x every operand tuple over %d boundary values (pairs; SUBSTR/LEFT/RIGHT offsets over a 12-value offset set), with and without --allow-disabled-opcodes, executed and inside an unexecuted branch; each case in a crash-contained worker" % r["values"]],
+        "bounds": ["15 opcodes x every operand tuple over %d boundary values (pairs; SUBSTR/LEFT/RIGHT offsets over a 12-value offset set), with and without --allow-disabled-opcodes, executed and inside an unexecuted branch; each case in a crash-contained worker" % r["values"],
+                   "long and mid-range operands: INVERT/AND/OR/XOR/CAT/SUBSTR/LEFT/RIGHT on patterned strings of 31 length classes around 8/16/32/64/128/256/512 and the 520-byte limit [thorough: every length 5..520], offsets around 0/128/256/the string length/-1, CAT pairs whose sum is 519/520/521; MUL/DIV/MOD on all signed pairs of 30 mid-range magnitudes (products beyond 32 bits), 2MUL/2DIV on them, LSHIFT/RSHIFT of them by every count 0..66"],
         "case_classes": c,
     }
     vac = None
@@ -192,7 +193,7 @@ def run_c18(ctx):
         "states": r["strings"] + r["integers"], "transitions": r["strings"] * 3 + r["integers"] * 5, "traces_validated_against_impl": r["strings"] + r["integers"],
         "samples": r["samples"], "exhaustive": True,
         "bounds": ["all byte strings of length 0..3 (16,843,009)", "length 4: " + ("all 2^32 strings" if r["full_4_byte_space"] else "{00,01,7f,80,ff}^3 x all 256 top bytes (the thorough tier enumerates all 2^32)"),
-                   "length 5 with a 5-byte limit: {00,01,7f,80,ff}^4 x all 256 top bytes", "integers: every n in [-2^16, 2^16], +-2^k+d for k<63, |d|<=3, INT64 extremes",
+                   "length 5 with a 5-byte limit: {00,01,7f,80,ff}^4 x all 256 top bytes", "integers: every n in [-2^16, 2^16], +-2^k+d for k<63, |d|<=3, INT64 extremes; mid-range: +-m*s for every m < 128,000 [1,024,000] and the strides s = 1000003, 4294967311, 0x0080ff017f; decimal shapes of 1..18 digits (10^k+-d, repdigits, runs of 9s / 0s with one other digit at every position, ascending digits); every magnitude of <= 6 bytes over {00,01,5a,7f,80,ff}, both signs",
                    "per string: decode value, minimality verdict (constructor with fRequireMinimal), re-encode; per integer: serialize, round trip, Value(int).hex_str(), decimal literal, Value(0x..).int_value()"],
         "byte_strings": r["strings"], "of_which_minimal": r["minimal_strings"], "integers": r["integers"],
         "locktime_operand_sessions": r.get("locktime_operand_sessions", 0),
